@@ -157,8 +157,19 @@ def run(tier="quick", replay=None):
         ok = any(root_of(f2, fl2, op_local(t2["args"][0])) == vroot and f2.dominates(b2, bb) for b2, t2 in ins)
         # or the set is a copy of an inherited (already seeded) set parameter
         if not ok and vroot is not None:
-            inherited = [x for x in fl2.back_pure([vroot]) if 1 <= x <= f2.argc and "HashSet<std::vec::Vec<u8>>" in f2.local_ty(x)]
-            ok = bool(inherited)
+            def is_set_param(l):
+                r = root_of(f2, fl2, l) if l is not None else None
+                return r is not None and 1 <= r <= f2.argc and "HashSet<std::vec::Vec<u8>>" in f2.local_ty(r)
+            # (b) the set IS a clone of the inherited set
+            for b2, t2 in fl2.call_defs.get(vroot, []):
+                if (callee_of(t2) or "").endswith("Clone>::clone") and t2["args"] and is_set_param(op_local(t2["args"][0])):
+                    ok = True
+            # (c) or it is refilled from the inherited set by a clone_from that dominates this expansion
+            for b2, t2 in f2.calls():
+                if (callee_of(t2) or "").endswith("::clone_from") and len(t2["args"]) == 2 and \
+                        root_of(f2, fl2, op_local(t2["args"][0])) == vroot and is_set_param(op_local(t2["args"][1])) \
+                        and f2.dominates(b2, bb) and b2 != bb:
+                    ok = True
         R.check(ok, "R10.a", "R10.a|%s|seeded" % f2.path, f2.loc(bb),
                 "auto: the visited set is seeded (insert dominates the first expansion, or it is a copy of the caller's set)",
                 "%s starts inline expansion with an empty visited set: direct self-recursion of the root inline is not detected "
